@@ -162,6 +162,9 @@ _T["C18"] = ("Theorems resultError_one_part / resultError_two_parts: for every 1
 _T["C19"] = ("Theorems numeric_entry / channel_entry: for every well-formed numeric list (a,b:c,...) or channel list (@a!b:c!d,...) of Spec/ExprList.lean and every index, the model of the entry walkers returns OK with exactly the written number or range (token text and 32-bit integer value), the dimension count and the values up to the caller's capacity, and NO_MORE at or beyond the number of entries; for ANY content: stores_bounded (never more values than the capacity), numeric_ok_implies_prefix_wf, channel_error_pushes (-170 exactly on ERROR).",
             "Lean kernel + standard axioms; list grammar over the decimal token specification of C13; integer values are strtol of the token text (Model/Prim.lean, libc specification); model tied to expression.c by exhaustive short bodies and generated lists",
             "Lean 4 theorems (entry walkers = list grammar) + differential correspondence")
+_T["C06"] = ("Theorem framing: for every context (any table, any scripts, any state left by earlier messages) and every message, the bytes written while SCPI_Parse runs are exactly frame(items of its units): response units separated by single ';', items by single ',', one line terminator and one flush iff at least one unit responded, nothing otherwise (silent_message); the item record is tied to the writers by item_of_int / item_of_text / item_of_block. Hypothesis gPartial = false excludes misuse of the streaming block API (unfinished block, item started inside a block, data without header).",
+            "Lean kernel + standard axioms; ghost item bookkeeping in the model (proved not to influence the real fields); context model tied to parser.c by scripted differential testing, output judged byte-exactly against frame() over independently encoded items",
+            "Lean 4 invariant proof over the output state machine + differential correspondence")
 _T["C01"] = ("PARTIAL BY NATURE. Theorems (Props/C01.lean): every recogniser keeps its cursor and token extent inside its input (from the C13 theorems, block recogniser included); the unit detector always makes progress and never leaves its input, so the unit loop of SCPI_Parse and the scan loop of SCPI_Input terminate; SCPI_Parse never exhausts its step budget, never composes a header before the start of the buffer and modifies no byte outside the message; SCPI_Input keeps position < buffer length for every chunk history; an over-long chunk copies nothing; SCPI_ParamCopyText and the array readers never store beyond the caller's capacity. These are statements about the algorithm as modelled: a C-level out-of-bounds read caused by a broken check-then-read pair, signed overflow or libc reading past a token cannot be exhibited by the model; for those the evidence is testing: every correspondence domain runs under ASan+UBSan with exact-size heap objects, canaries, a watchdog and the guarded buffer-tail poisoning hook, in four build configurations.",
             "Lean kernel + standard axioms for the bounds/termination theorems; memory safety and undefined arithmetic of the C code itself are observed by sanitizers under the generators (testing)",
             "Lean 4 bounds and termination theorems over the model + sanitizer-instrumented differential correspondence")
@@ -169,5 +172,5 @@ for _k, (_a, _b, _c) in _T.items():
     PROPS[_k]["level_text"], PROPS[_k]["level_note"], PROPS[_k]["technique"] = _a, _b, _c
 
 # properties whose theorem module is not complete yet are not claimed
-for _k in ("C02", "C06", "C08", "C09", "C05", "C04", "C17"):  # unclaimed
+for _k in ("C02", "C08", "C09", "C05", "C04", "C17"):  # unclaimed
     PROPS[_k]["unclaimed"] = True
